@@ -10,7 +10,7 @@ git apply "$PATCH" || { echo "patch does not apply"; exit 2; }
 trap 'git -C /repo checkout -- . >/dev/null 2>&1' EXIT
 cd /verif
 for c in "$@"; do
-  out=$(VERIF_SEED=${VERIF_SEED:-1} ./check "$c" ${TIER:-quick} 2>&1 | grep -v '^CASE')
+  out=$(VERIF_EVIDENCE_DIR=/verif/.scratch/evidence-trials VERIF_SEED=${VERIF_SEED:-1} ./check "$c" ${TIER:-quick} 2>&1 | grep -v '^CASE')
   rc=$?
   echo "== $c: $(echo "$out" | grep -c '^VIOLATION') violation line(s)"
   echo "$out" | grep -E "violation signature|^BROKEN" | sort | uniq -c | head -8
